@@ -1,5 +1,6 @@
 //! pdbverif: drives the real parity-db and emits protocol traces for the Lean model driver,
 //! plus independent oracle checks.  One sub-command per model slice.
+mod c02x;
 mod c04;
 mod c05;
 mod c06;
@@ -31,6 +32,7 @@ fn dispatch(cmd: &str) -> Option<RunFn> {
 	Some(match cmd {
 		"p1" => p1::run,
 		"c19" => c19::run,
+		"c02x" => c02x::run,
 		"c08" => c08::run,
 		"c16" => c16::run,
 		"c13" => c13::run,
